@@ -104,6 +104,9 @@ Scenarios ==
     \cup [kind : {"stat"}, stat : {"king", "r0", "r1", "f2", "fst", "pi_xy"}, shape : {<<1, 9>>, <<9, 1>>, <<3, 3>>, <<9>>, <<3, 3, 1>>, <<1, 3, 3>>, <<3, 4>>, <<4, 3>>}]
     \* empty spectra whose zero-length axis is not the last one, next to absurdly long axes: every tool and option on them
     \cup [kind : {"shapeop"}, shape : AbsurdShapes, format : {"text", "npy"}, op : ShapeOps]
+    \* stdout is dead from the first byte (a pipe nobody reads: EPIPE; a full device: ENOSPC): every tool and every line it
+    \* writes there - the header line of `stat -H' included - ends in a diagnosed error, not in success and not in a panic
+    \cup [kind : {"deadsink"}, tool : {"view", "view-npy", "fold", "stat", "stat-header", "stat-header-many", "create"}, sink : {"epipe", "enospc"}]
     \* `stat --precision' takes one value or one value PER statistic: values at and beyond the bound of the formatting machinery
     \* (65535) in either form and in every position, lists of the wrong length, empty and negative entries
     \* (a length mismatch must be an error; anything else may succeed or fail, never panic)
@@ -143,6 +146,7 @@ Expect(s) ==
       [] s.kind = "manypops" -> IF s.project = "tiny" THEN "ok" ELSE "err"
       [] s.kind = "badaxes" -> "err"
       [] s.kind = "npyjunk" -> "err"
+      [] s.kind = "deadsink" -> "err"
       [] s.kind = "statprec" -> IF s.precs \in {"1,2,3", "1,2,3,4,5"} /\ s.stats # "sum" THEN "err" ELSE "ok_or_err"
       [] s.kind = "threads" -> "ok"            \* any --threads value behaves like any other (C12)
       [] OTHER -> "ok_or_err"
